@@ -74,7 +74,7 @@ pub fn heads() -> Vec<Head> {
 }
 
 #[derive(Clone, Debug, PartialEq, Eq)]
-enum Seen {
+pub enum Seen {
     Request { method: String, uri: String, version: String, headers: Vec<(String, String)> },
     Closed,
     Rejected,
@@ -83,12 +83,12 @@ enum Seen {
     Hung,
 }
 
-struct CaseOut {
-    seen: Seen,
-    pulled: u64,
+pub struct CaseOut {
+    pub seen: Seen,
+    pub pulled: u64,
 }
 
-async fn codec_case(ctx: &Arc<Ctx>, head: &Head, cuts: &[usize], gap: Duration, close_after: bool) -> CaseOut {
+pub async fn codec_case(ctx: &Arc<Ctx>, head: &Head, cuts: &[usize], gap: Duration, close_after: bool) -> CaseOut {
     let (mut client, server_io) = tokio::io::duplex(64 * 1024);
     let probe = Probe::new(server_io);
     let pulled = probe.pulled.clone();
